@@ -196,6 +196,15 @@ Section AMap.
     destruct (eqd k k'); simpl; auto.
   Qed.
 
+  Lemma lookup_in_keys k v m : lookup k m = Some v -> In k (keys m).
+  Proof. intros H. apply lookup_In in H. change k with (fst (k, v)). apply in_map; auto. Qed.
+
+  Lemma in_keys_lookup k m : In k (keys m) -> exists v, lookup k m = Some v.
+  Proof.
+    intros H. destruct (lookup k m) as [v|] eqn:E; [eauto|].
+    apply lookup_None_notin in E. tauto.
+  Qed.
+
 End AMap.
 
 Arguments amap : clear implicits.
